@@ -21,6 +21,10 @@ CLAIMED = {
          "Exploration by generated search over operator/kind/spacing combinations (label histogram: operator pairs and operand-kind pairs actually exercised); exact output equality with a reference evaluator written from the property statement.",
          "Shapes whose meaning the statement leaves open are discarded and counted (see assumptions in the evidence); values are small so that float arithmetic is exact.",
          "DESIGN.md section 5/C04"),
+ "C19": ("property-based testing (rapid), model-based: generated Set/Delete/Exists/Open histories and generated file trees / loader stacks compared with a map model keyed by an independent path normaliser",
+         "Exploration by generated search: in-memory loader histories under many spellings, every clean absolute path of generated trees for the OS/http/embed loaders, and multi stacks with overlapping contents and AddLoaders mid-history.",
+         "The host file system behaves as POSIX; the embed loader is exercised on one fixed embedded tree.",
+         "DESIGN.md section 5/C19"),
 }
 PENDING = {}
 
